@@ -61,3 +61,7 @@ Qed.
 
 Lemma INR_IZR_N (n : nat) : IZR (Z.of_N (N.of_nat n)) = INR n.
 Proof. rewrite nat_N_Z. symmetry. apply INR_IZR_INZ. Qed.
+
+(* push Fin through the total operations *)
+Ltac xfin := cbn [zero one two three c100 c50 c0_1 c0_015 XROps];
+  repeat first [rewrite xr_mul_fin | rewrite xr_add_fin | rewrite xr_sub_fin | rewrite xr_abs_fin | rewrite xr_neg_fin].
